@@ -29,6 +29,7 @@ static void sched_sem_blocked(struct VSync *s);
 #define V_YIELD(why, obj) sched_yield_pt(why, obj)
 #define V_SEM_BLOCKED(s) sched_sem_blocked(s)
 #define V_MUTEX_CONTENDED(m) do { V_ASSUME(0); } while (0)  /* holder is suspended below us: schedule not expressible as nesting */
+#define V_SYNC_POOL 14
 #include "common/threads_model.h"
 #include "EbObject.h"
 #include "common/dctor_dispatch_srm.h"
